@@ -828,6 +828,9 @@ func ruleLookupOrder(w *World, r *Report, e *Engine) {
 	r.floor("C01.lookup-order", "ascents to the outer scope", n, 2)
 	// looking a name up changes no scope
 	setTotalRule(w, r, e, "C01.set-total")
+	if mm := newEvalModel(w, e); mm.ok {
+		expansionOnlyRule(w, r, mm, "C01.expansion-only")
+	}
 	r.rule("C01.lookup-pure", "looking a name up (Get, GetNT, Find, FindNT and whatever they call in package env) writes no scope: no store to a field of an Env and no write into a scope's table, so a binding found through an enclosing scope is found there again, with its current value, on the next lookup (a copy kept in the inner scope would shadow a later def)")
 	np, nlk := 0, 0
 	seen := map[*ssa.Function]bool{}
@@ -1603,8 +1606,21 @@ func ruleBinds(w *World, r *Report, e *Engine) {
 			continue
 		}
 		for _, in := range b.Instrs {
-			mu, ok := in.(*ssa.MapUpdate)
-			if !ok {
+			// a binding: a write into the table, or a call of a function of the package that takes a name and a
+			// value and writes the value into a table
+			var mu struct {
+				Value ssa.Value
+				pos   token.Pos
+			}
+			switch x := in.(type) {
+			case *ssa.MapUpdate:
+				mu.Value, mu.pos = x.Value, x.Pos()
+			case *ssa.Call:
+				if v, ok := bindingCallValue(x); ok {
+					mu.Value, mu.pos = v, x.Pos()
+				}
+			}
+			if mu.Value == nil {
 				continue
 			}
 			nUpd++
@@ -1636,7 +1652,7 @@ func ruleBinds(w *World, r *Report, e *Engine) {
 						}
 					}
 				}
-				r.check(okRest, "C01.binds", fn, "rest parameter value", mu.Pos(), "the arguments from the index of & on", "the rest list does not start at the index of &")
+				r.check(okRest, "C01.binds", fn, "rest parameter value", mu.pos, "the arguments from the index of & on", "the rest list does not start at the index of &")
 			case onPos:
 				okPos := false
 				if ld, ok := stripIface(mu.Value).(*ssa.UnOp); ok {
@@ -1644,9 +1660,9 @@ func ruleBinds(w *World, r *Report, e *Engine) {
 						okPos = true
 					}
 				}
-				r.check(okPos, "C01.binds", fn, "positional parameter value", mu.Pos(), "the argument at the parameter's index", "a parameter is bound to an argument at a different index")
+				r.check(okPos, "C01.binds", fn, "positional parameter value", mu.pos, "the argument at the parameter's index", "a parameter is bound to an argument at a different index")
 			default:
-				r.bad("C01.binds", fn, "binding outside the &/positional split", mu.Pos(), "a binding is made before the & test")
+				r.bad("C01.binds", fn, "binding outside the &/positional split", mu.pos, "a binding is made before the & test")
 			}
 		}
 	}
@@ -2224,4 +2240,34 @@ func scopeNewRule(w *World, r *Report, rule string) {
 		}
 	}
 	r.floor(rule, "returns of the scope constructors", n, 3)
+}
+
+// bindingCallValue: the call hands a name (string or symbol) and a value to a function of the caller's package
+// that writes that value into a table; returns the value argument.
+func bindingCallValue(c *ssa.Call) (ssa.Value, bool) {
+	g := c.Call.StaticCallee()
+	if g == nil || c.Parent() == nil || g.Pkg != c.Parent().Pkg || len(g.Blocks) == 0 || len(g.Params) != len(c.Call.Args) {
+		return nil, false
+	}
+	hasName, vi := false, -1
+	for i, p := range g.Params {
+		if isBasic(p.Type(), types.String) {
+			hasName = true
+		} else if n, ok := p.Type().(*types.Named); ok && n.Obj().Name() == "Symbol" {
+			hasName = true
+		} else if types.IsInterface(p.Type()) && !isErrorType(p.Type()) {
+			vi = i
+		}
+	}
+	if !hasName || vi < 0 {
+		return nil, false
+	}
+	for _, b := range g.Blocks {
+		for _, in := range b.Instrs {
+			if mu, ok := in.(*ssa.MapUpdate); ok && stripConv(mu.Value) == ssa.Value(g.Params[vi]) {
+				return c.Call.Args[vi], true
+			}
+		}
+	}
+	return nil, false
 }
